@@ -83,6 +83,8 @@
                              covariance).
    The call contract of the selectors (LrsvOutcome, PcmOutcome, EigOutcome, WhitenOutcome) is also
    what Trace_Subspace.tla validates recorded calls on random float matrices against.
+     ConvNarrowIntHalfPrecision  linear2dB / SNR_dB_to_EbN0_dB / EbN0_dB_to_SNR_dB take log10 of an 8 / 16 bit numpy
+                             integer in half / single precision (3 / 7 digits); refuted by ConvFullPrecision.
      SmwZeroSkipShiftsIndex  update_inv_sum_diag filters the zero elements out of the diagonal BEFORE it
                              enumerates it, so a non-zero element is applied at the position it has in the
                              filtered array: wrong whenever a zero precedes a non-zero element
@@ -102,7 +104,7 @@ CONSTANTS Kind,     \* "projx" "proj" "projhist" "chord" "chordx" "smw" "conv" "
           Shapes,   \* sequence of <<rows, cols>>; case id uses Shapes[(id % Len(Shapes)) + 1]
           Alpha,    \* seeded entries have re, im in -Alpha..Alpha
           Dev       \* [LrsvWideMatrixIndex, PcmWideMatrixShape, WhitenEigNotOrthogonal,
-                    \*  SmwZeroSkipShiftsIndex, ProjLazyOQFromCallerArray : BOOLEAN]
+                    \*  SmwZeroSkipShiftsIndex, ProjLazyOQFromCallerArray, ConvNarrowIntHalfPrecision : BOOLEAN]
 
 VARIABLE kase
 vars == <<kase>>
@@ -159,6 +161,24 @@ ExhMat(id, r, c) ==
         IN  G((dg % 3) - 1, (dg \div 3) - 1)]])
 ShapeOf(id) == Shapes[(id % Len(Shapes)) + 1]
 
+(* Magnitude regime.  Every kernel is homogeneous: if the input is multiplied by k > 0 every observable is
+   multiplied by a fixed power of k (ScalePower).  Each case carries an exponent sc; the harness multiplies
+   the inputs named in ScalePower by 10^sc (10^-sc for the second operand of a binary distance) and divides
+   the observables by the law's power before it compares them with the emitted exact values.  The laws are
+   checked exactly by TLC for k = 2 where that is not a tautology (ProjScaleLaw, SmwScaleLaw, EigScaleLaw,
+   SvdScaleLaw); chordal distances and principal angles are functions of the two projectors.            *)
+ScaleOf(id) == <<0, -7, 0, 7, -13, 3, 13, 0>>[Pick(LcgStart(Seed, id + 7777), 8) + 1]
+ScalePower(kind) ==
+    CASE kind \in {"proj", "projhist"} -> [A |-> 1, P |-> 0]                      \* P(kA) = P(A)
+      [] kind \in {"chord", "chordx"}   -> [A |-> 1, B |-> -1, d2 |-> 0]           \* d(kA, B/k) = d(A, B), same angles
+      [] kind = "smw"    -> [inv0 |-> -1, diag |-> 1, inv |-> -1]                   \* upd(inv(A)/k, k d) = inv(A + D)/k
+      [] kind = "eig"    -> [H |-> 1, D |-> 1, proj |-> 0]                          \* eigenvalues k D, same eigenspaces
+      [] kind = "svd"    -> [A |-> 1, S |-> 1, proj |-> 0, pcm |-> 1]
+      [] kind = "gmd"    -> [A |-> 1, R |-> 1, Q |-> 0]                             \* Q, P unchanged, R -> k R
+      [] kind = "whiten" -> [C |-> 1, W |-> -1]                                     \* W(kC) = W(C)/sqrt k: W^H C W scale free (power in halves: -1 = k^(-1/2))
+      [] kind = "eigrel" -> [H |-> 1, D |-> 1]
+      [] OTHER -> [none |-> 0]
+
 NthSmallest(S, k) == CHOOSE e \in S : Cardinality({y \in S : y < e}) = k
 RECURSIVE PermFrom(_, _)          \* the set S in an order driven by the LCG state x
 PermFrom(x, S) == IF S = {} THEN <<>>
@@ -179,6 +199,15 @@ IdxAsc(c, S)  == IF S = {} THEN <<>>
                  ELSE LET k == CHOOSE k \in S : \A j \in S : c[j] >= c[k]
                       IN  <<k>> \o IdxAsc(c, S \ {k})
 
+\* Q = U (nu I - 2 v v^H): Gaussian integers, Q^H Q = nu^2 I   (nu = |v|^2 > 0)
+HouseBasis(v, u) ==
+    LET n  == MRows(v)
+        nu == IntFrob(v)
+    IN  SPerm(u.perm, u.ph, XSub(IDiag(n, nu), IScale(2, XMul(v, XHerm(v)))))
+\* projector numerator onto the columns js of Q (denominator nu^2); js may be empty
+ProjCols(Q, js) == IF js = <<>> THEN MZero(MRows(Q), MRows(Q))
+                   ELSE LET S == Cols(Q, js) IN XMul(S, XHerm(S))
+
 None == [kind |-> "none"]
 Init == kase = None
 
@@ -192,19 +221,45 @@ ProjND(A) ==
     IN  IF d[1] = 0 THEN [den |-> 0, num |-> <<>>]
         ELSE [den |-> d[1], num |-> XMul(XMul(A, XAdj(Gm)), AH)]
 
-ProjRec(id, A, M) ==
-    LET p  == ProjND(A)
-        m  == MRows(A)
+ProjRecP(id, A, M, p) ==
+    LET m  == MRows(A)
     IN  IF p.den = 0 THEN [valid |-> FALSE]
         ELSE LET oN == XSub(IDiag(m, p.den), p.num)
                  rN == XSub(IDiag(m, p.den), IScale(2, p.num))
-             IN [valid |-> TRUE, kind |-> "proj", id |-> id, A |-> A, M |-> M, den |-> p.den,
+                 n  == MCols(A)
+                 \* a NEARLY DEPENDENT basis of the same subspace: A Till, Till upper triangular with first row
+                 \* 2^12 and unit diagonal below (det = 2^12 # 0, columns nearly parallel, cond ~ 1e4)
+                 Till == Fix([i \in 1..n |-> [j \in 1..n |-> IF i = 1 THEN Gi(4096) ELSE IF i = j THEN GOne ELSE GZero]])
+             IN [valid |-> TRUE, kind |-> "proj", id |-> id, A |-> A, M |-> M, den |-> p.den, sc |-> ScaleOf(id), pw |-> ScalePower("proj"),
+                 AI |-> IF n >= 2 THEN XMul(A, Till) ELSE <<>>, detTill |-> Till[1][1][1],     \* det of the upper triangular Till = product of its diagonal = 2^12
                  num |-> p.num, onum |-> oN, rnum |-> rN,
                  PM |-> XMul(p.num, M), oPM |-> XMul(oN, M), RM |-> XMul(rN, M)]
 
 \* The matrix M that is projected / reflected has 1..rows+2 columns, chosen by the case: fewer, as many
 \* and MORE columns than the basis A, and more columns than rows (wide M) all occur.
 McOf(id, rows) == 1 + ((id \div 3) % (rows + 2))
+ProjRec(id, A, M) == ProjRecP(id, A, M, ProjND(A))
+
+\* Exact projectors for the sizes 5..8 without determinants: A = Q[:, sel] T with Q = U (nu I - 2 v v^H) (orthogonal
+\* Gaussian-integer columns of norm nu) and T unit upper triangular (det 1): span(A) = span(Q[:, sel]), so
+\* P = Q[:, sel] Q[:, sel]^H / nu^2 for any size.
+ProjQ(id) ==
+    LET sh == ShapeOf(id)  N == sh[1]  n == sh[2]  mc == McOf(id, N)
+        s  == Stream(id, 2 * N + 2 * n * n + 2 * N * mc + 6)
+        o  == 2 * N + 2 * n * n + 2 * N * mc
+        real == Pick(s[o + 1], 4) = 0
+        v  == GMat(s, 0, N, 1, 1, real)
+    IN  IF Nnz(v) < 2 THEN [valid |-> FALSE]
+        ELSE LET u   == IF real THEN [perm |-> PermFrom(s[o + 2], 1..N), ph |-> TLCEval([i \in 1..N |-> 2 * Pick(LcgIter(s[o + 2], i), 2)])]
+                        ELSE SPermOf(s[o + 2], N)
+                 Q   == HouseBasis(v, u)
+                 sel == Prefix(PermFrom(s[o + 3], 1..N), n)
+                 T0  == GMat(s, 2 * N, n, n, 1, real)
+                 T   == Fix([i \in 1..n |-> [j \in 1..n |-> IF i = j THEN GOne ELSE IF i < j THEN T0[i][j] ELSE GZero]])
+                 nu  == IntFrob(v)
+             IN  ProjRecP(id, XMul(Cols(Q, sel), T), GMat(s, 2 * N + 2 * n * n, N, mc, 2, real),
+                          [den |-> nu * nu, num |-> ProjCols(Q, sel)])
+
 ProjX(id) == LET sh == ShapeOf(id)  mc == McOf(id, sh[1])  s == Stream(id, 2 * sh[1] * mc)
              IN  ProjRec(id, ExhMat(id, sh[1], sh[2]), GMat(s, 0, sh[1], mc, 2, FALSE))
 ProjS(id) == LET sh == ShapeOf(id)  mc == McOf(id, sh[1])
@@ -213,8 +268,8 @@ ProjS(id) == LET sh == ShapeOf(id)  mc == McOf(id, sh[1])
              IN  ProjRec(id, GMat(s, 0, sh[1], sh[2], Alpha, real),
                          GMat(s, 2 * sh[1] * sh[2], sh[1], mc, 2, real))
 
-Proj == /\ Kind \in {"proj", "projx"} /\ kase = None
-        /\ \E id \in Lo..Hi : LET r == IF Kind = "projx" THEN ProjX(id) ELSE ProjS(id)
+Proj == /\ Kind \in {"proj", "projx", "projq"} /\ kase = None
+        /\ \E id \in Lo..Hi : LET r == IF Kind = "projx" THEN ProjX(id) ELSE IF Kind = "projq" THEN ProjQ(id) ELSE ProjS(id)
                               IN  r.valid /\ kase' = r
 
 IsProj == kase.kind = "proj"
@@ -229,6 +284,9 @@ ReflectTwice      == IsProj => /\ XMul(kase.rnum, kase.rnum) = IDiag(MRows(kase.
                                /\ XMul(kase.rnum, kase.RM) = IScale(kase.den * kase.den, kase.M)
 ProjRank          == IsProj => MTrace(kase.num) = Gi(MCols(kase.A) * kase.den)
 ProjSplits        == IsProj => XAdd(kase.PM, kase.oPM) = IScale(kase.den, kase.M)
+\* homogeneity, exactly for k = 2: the projector of 2A is the projector of A
+ProjScaleLaw      == IsProj /\ Kind # "projq" /\ MCols(kase.A) <= 3 /\ MRows(kase.A) <= 6 => LET p2 == ProjND(IScale(2, kase.A))
+                               IN  IScale(p2.den, kase.num) = IScale(kase.den, p2.num) /\ kase.detTill # 0
 
 (* ------------------------------------------- the Projection object over a history of calls --- *)
 \* State (fields of kase): A1 = the caller's array at construction, A2 = what the caller may write into the
@@ -250,7 +308,7 @@ ProjHistStart(id) ==
         ELSE IF IScale(p2.den, p1.num) = IScale(p1.den, p2.num) THEN [valid |-> FALSE]     \* same subspace: nothing to see
         ELSE LET o1 == XSub(IDiag(m, p1.den), p1.num)
                  r1 == XSub(IDiag(m, p1.den), IScale(2, p1.num))
-             IN [valid |-> TRUE, kind |-> "projhist", id |-> id, A1 |-> A1, A2 |-> A2, M |-> M,
+             IN [valid |-> TRUE, kind |-> "projhist", id |-> id, A1 |-> A1, A2 |-> A2, M |-> M, sc |-> ScaleOf(id),
                  den |-> p1.den, num |-> p1.num, onum |-> o1, den2 |-> p2.den, num2 |-> p2.num,
                  PM |-> XMul(p1.num, M), oPM |-> XMul(o1, M), RM |-> XMul(r1, M),
                  arr |-> 1, qSrc |-> 1, oqSrc |-> IF Dev.ProjLazyOQFromCallerArray THEN 0 ELSE 1,
@@ -309,7 +367,9 @@ ChordRec(id) ==
                  nu == IntFrob(v)
                  Rh == XSub(IDiag(m, nu), IScale(2, XMul(v, XHerm(v))))
                  dAB == MDet(XMul(XHerm(A), B))
-             IN [valid |-> TRUE, kind |-> "chord", id |-> id, n |-> n, A |-> A, B |-> B, T |-> T,
+                 Till == Fix([i \in 1..n |-> [j \in 1..n |-> IF i = 1 THEN Gi(4096) ELSE IF i = j THEN GOne ELSE GZero]])
+             IN [valid |-> TRUE, kind |-> "chord", id |-> id, n |-> n, A |-> A, B |-> B, T |-> T, sc |-> ScaleOf(id),
+                 AI |-> IF n >= 2 THEN XMul(A, Till) ELSE <<>>,          \* nearly dependent basis of span(A)
                  AT |-> AT, UA |-> UA, UB |-> UB, HA |-> XMul(Rh, A), HB |-> XMul(Rh, B), Rh |-> Rh, hnu |-> nu,
                  \* product of the squared cosines of the principal angles = |det(A^H B)|^2 / (det A^H A det B^H B)
                  cos2prod |-> RNorm(GAbs2(dAB)[1], pa.den * pb.den),
@@ -378,7 +438,7 @@ ChordXRec(id) ==
                  Rh == XSub(IDiag(m, nu), IScale(2, XMul(v, XHerm(v))))
                  pat == ProjND(AT)
                  pbt == ProjND(BT)
-             IN [valid |-> TRUE, kind |-> "chordx", id |-> id, rows |-> m, n1 |-> n1, n2 |-> n2, nested |-> nested,
+             IN [valid |-> TRUE, kind |-> "chordx", id |-> id, sc |-> ScaleOf(id), rows |-> m, n1 |-> n1, n2 |-> n2, nested |-> nested,
                  A |-> A, B |-> B, AT |-> AT, BT |-> BT, UA |-> UA, UB |-> UB, HA |-> XMul(Rh, A), HB |-> XMul(Rh, B),
                  Rh |-> Rh, hnu |-> nu,
                  d2 |-> D2Frob(pa, pb),                               \* the definition
@@ -417,8 +477,12 @@ ChordXRange           == IsChordX => LET lowest == <<Abs1(kase.n1 - kase.n2), 2>
 \*   delta' = delta + d num[k][k]            (matrix determinant lemma)
 \*   num'   = (num delta' - d num[:,k] num[k,:]) / delta      (exact division)
 \* The sweep is defined only while every 1 + d X_kk # 0, i.e. every A + D_k is invertible.
-DiagK(dd, k) == Fix([i \in 1..Len(dd) |-> [j \in 1..Len(dd) |-> IF i = j /\ i <= k THEN Gi(dd[i]) ELSE GZero]])
-DiagSeqK(dd, k) == [i \in 1..Len(dd) |-> IF i <= k THEN dd[i] ELSE 0]
+\* the diagonal elements are Gaussian integers (GRat): real ones, zeros in any position, and - for complex A -
+\* genuinely complex ones (the pivot 1 + d X_kk and the outer product are then complex through d itself)
+DiagK(dd, k) == Fix([i \in 1..Len(dd) |-> [j \in 1..Len(dd) |-> IF i = j /\ i <= k THEN dd[i] ELSE GZero]])
+DiagSeqK(dd, k) == [i \in 1..Len(dd) |-> IF i <= k THEN dd[i] ELSE GZero]
+DiagAlphabet(real) == IF real THEN <<Gi(0), Gi(1), Gi(2), Gi(0), Gi(3), Gi(-2), Gi(5)>>
+                      ELSE <<Gi(0), Gi(1), G(0, 1), Gi(0), G(1, -1), Gi(-2), G(0, -2), Gi(3), G(2, 1)>>
 
 SmwStart(id) ==
     LET sh == ShapeOf(id)  n == sh[1]
@@ -427,9 +491,9 @@ SmwStart(id) ==
         A  == GMat(s, 0, n, n, Alpha, real)
         dt == MDet(A)
         \* zeros occur in EVERY position of the diagonal (a zero element leaves the inverse unchanged)
-        dd == [i \in 1..n |-> <<0, 1, 2, 0, 3, -2, 5>>[Pick(s[2 * n * n + i], 7) + 1]]
+        dd == [i \in 1..n |-> DiagAlphabet(real)[Pick(s[2 * n * n + i], Len(DiagAlphabet(real))) + 1]]
     IN  IF GIsZero(dt) THEN [valid |-> FALSE]
-        ELSE [valid |-> TRUE, kind |-> "smw", id |-> id, A |-> A, dd |-> dd, k |-> 0, num |-> XAdj(A),
+        ELSE [valid |-> TRUE, kind |-> "smw", id |-> id, sc |-> ScaleOf(id), A |-> A, dd |-> dd, k |-> 0, num |-> XAdj(A),
               delta |-> dt, inv0 |-> XInv(A), diagk |-> DiagSeqK(dd, 0), expInv |-> XInv(A)]
 
 SmwPick == /\ Kind = "smw" /\ kase = None
@@ -437,17 +501,17 @@ SmwPick == /\ Kind = "smw" /\ kase = None
 
 SmwStep == /\ kase.kind = "smw" /\ kase.k < Len(kase.dd)
            /\ LET k  == kase.k + 1
-                  dv == kase.dd[k]
-                  d  == Gi(dv)
+                  d  == kase.dd[k]
+                  isz == GIsZero(d)
                   X  == kase.num
                   n  == Len(kase.dd)
                   \* the pivot position of element k: k itself; with the deviation, its position among the
                   \* non-zero elements (zeros were filtered out before the enumeration)
-                  pos == IF Dev.SmwZeroSkipShiftsIndex THEN Cardinality({j \in 1..k : kase.dd[j] # 0}) ELSE k
-                  dl == IF dv = 0 THEN kase.delta ELSE GAdd(kase.delta, GMul(d, X[pos][pos]))
+                  pos == IF Dev.SmwZeroSkipShiftsIndex THEN Cardinality({j \in 1..k : ~GIsZero(kase.dd[j])}) ELSE k
+                  dl == IF isz THEN kase.delta ELSE GAdd(kase.delta, GMul(d, X[pos][pos]))
               IN  /\ ~GIsZero(dl)
                   /\ kase' = [kase EXCEPT !.k = k, !.delta = dl,
-                        !.num = IF dv = 0 THEN X ELSE Fix([i \in 1..n |-> [j \in 1..n |->
+                        !.num = IF isz THEN X ELSE Fix([i \in 1..n |-> [j \in 1..n |->
                                     GDiv(GSub(GMul(X[i][j], dl), GMul(d, GMul(X[i][pos], X[pos][j]))), kase.delta)]]),
                         !.diagk = DiagSeqK(kase.dd, k),
                         !.expInv = XInv(XAdd(kase.A, DiagK(kase.dd, k)))]
@@ -458,10 +522,20 @@ SmwIsInverse == IsSmw => LET B == XAdd(kase.A, DiagK(kase.dd, kase.k))
                              /\ kase.num = XAdj(B)
                              /\ XMul(B, kase.num) = XScale(kase.delta, IDiag(Len(kase.dd), 1))
                              /\ kase.expInv = XScale(GInv(kase.delta), kase.num)
+\* homogeneity for k = 2: adj(2B) / det(2B) = (adj(B) / det(B)) / 2, fraction free
+SmwScaleLaw  == IsSmw => LET B2 == IScale(2, XAdd(kase.A, DiagK(kase.dd, kase.k)))
+                         IN  XMul(B2, kase.num) = XScale(GMul(Gi(2), kase.delta), IDiag(Len(kase.dd), 1))
 
 (* ------------------------------------------------------------- unit conversions --- *)
 \* A power m * 10^e W (m in 1..9).  On the decade lattice (m = 1) everything is an integer:
 \*   dB(10^k) = 10 k,  dBm(10^k) = 10 k + 30 = dB(1000 * 10^k),  and back.
+\* Argument types: integer-valued arguments (the mantissa m as a linear value, bits per symbol) are offered as
+\* Python int and as numpy integers of every width; the result must not depend on the width.  With
+\* Dev.ConvNarrowIntHalfPrecision the logarithm of an 8 / 16 bit integer is taken in half / single precision
+\* (numpy's default promotion), which is what the code did when this clause was added.
+ArgTypes == <<"int", "int64", "int32", "int16", "uint8", "int8", "uint16">>
+ArgTypeOf(id) == ArgTypes[((id \div 2) % Len(ArgTypes)) + 1]
+FullPrecision(atype) == ~(Dev.ConvNarrowIntHalfPrecision /\ atype \in {"int16", "uint8", "int8", "uint16"})
 DbOfDecade(k)   == 10 * k
 DbmOfDecade(k)  == 10 * (k + 3)
 DecadeOfDb(y)   == y \div 10          \* y a multiple of 10
@@ -470,7 +544,7 @@ ConvRec(id) ==
     LET K == Alpha                    \* decades -K..K
         k == (id % (2 * K + 1)) - K
         m == ((id \div (2 * K + 1)) % 9) + 1
-    IN  [valid |-> TRUE, kind |-> "conv", id |-> id, k |-> k, m |-> m,
+    IN  [valid |-> TRUE, kind |-> "conv", id |-> id, k |-> k, m |-> m, atype |-> ArgTypeOf(id), precise |-> FullPrecision(ArgTypeOf(id)),
          dB |-> DbOfDecade(k), dBm |-> DbmOfDecade(k),
          linOfdB |-> DecadeOfDb(10 * k),            \* dB2Linear(10 k)  = 10^(this)
          linOfdBm |-> DecadeOfDbm(10 * k),          \* dBm2Linear(10 k) = 10^(this)
@@ -481,6 +555,8 @@ IsConv == kase.kind = "conv"
 ConvInverse == IsConv => /\ DecadeOfDb(kase.dB) = kase.k /\ DecadeOfDbm(kase.dBm) = kase.k
                          /\ DbOfDecade(kase.linOfdB) = 10 * kase.k
                          /\ DbmOfDecade(kase.linOfdBm) = 10 * kase.k
+\* the value of a conversion does not depend on the width of an integer argument
+ConvFullPrecision == kase.kind \in {"conv", "ebn0"} => kase.precise
 ConvOffset  == IsConv => kase.dBm - kase.dB = 30 /\ kase.linOfdB - kase.linOfdBm = 3
 
 \* Eb/N0 = SNR / bits-per-symbol (linear).  For Eb/N0 = 10^k: SNR = b * 10^k, an exact rational.
@@ -488,7 +564,7 @@ EbRec(id) ==
     LET K == Alpha
         k == (id % (2 * K + 1)) - K
         b == ((id \div (2 * K + 1)) % 10) + 1
-    IN  [valid |-> TRUE, kind |-> "ebn0", id |-> id, k |-> k, b |-> b, ebn0dB |-> 10 * k,
+    IN  [valid |-> TRUE, kind |-> "ebn0", id |-> id, k |-> k, b |-> b, atype |-> ArgTypeOf(id), precise |-> FullPrecision(ArgTypeOf(id)), ebn0dB |-> 10 * k,
          snrLin |-> [m |-> b, e |-> k],
          snrdB |-> IF b = 1 THEN <<10 * k>> ELSE IF b = 10 THEN <<10 * k + 10>> ELSE <<>>,
          y |-> 10 * k + b - 5]
@@ -499,16 +575,13 @@ EbLaw == IsEb => /\ kase.b \in 1..10 /\ kase.snrLin.m = kase.b /\ kase.snrLin.e 
                  /\ (kase.snrdB # <<>> => kase.snrdB[1] - kase.ebn0dB = IF kase.b = 10 THEN 10 ELSE 0)
 
 (* ------------------------------------------- matrices with a known spectrum (exact) --- *)
-\* Q = U (nu I - 2 v v^H): Gaussian integers, Q^H Q = nu^2 I   (nu = |v|^2 > 0)
-HouseBasis(v, u) ==
-    LET n  == MRows(v)
-        nu == IntFrob(v)
-    IN  SPerm(u.perm, u.ph, XSub(IDiag(n, nu), IScale(2, XMul(v, XHerm(v)))))
-\* projector numerator onto the columns js of Q (denominator nu^2); js may be empty
-ProjCols(Q, js) == IF js = <<>> THEN MZero(MRows(Q), MRows(Q))
-                   ELSE LET S == Cols(Q, js) IN XMul(S, XHerm(S))
 \* first n of a LCG-driven ordering of 1..(n+2): n distinct positive integers
 Weights(x, n) == Prefix(PermFrom(x, 1..(n + 2)), n)
+\* weights WITH repetitions: n values from 1..max(2, n div 2) (groups of equal eigen / singular values)
+RepWeights(x, n) == LET g == Max(2, n \div 2) IN TLCEval([k \in 1..n |-> 1 + Pick(LcgIter(x, k), g)])
+\* indexes of S whose value is > / >= / < / <= t (as a sequence, for ProjCols)
+IdxWhere(c, S, rel, t) == PermFrom(1, {k \in S : CASE rel = "gt" -> c[k] > t [] rel = "ge" -> c[k] >= t
+                                                    [] rel = "lt" -> c[k] < t [] OTHER -> c[k] <= t})
 
 EigRec(id) ==
     LET N  == ShapeOf(id)[1]
@@ -520,17 +593,28 @@ EigRec(id) ==
         ELSE LET u == IF real THEN [perm |-> PermFrom(s[2 * N + 2], 1..N), ph |-> TLCEval([i \in 1..N |-> 2 * Pick(s[2 * N + 2 + (i % 5)], 2)])]
                       ELSE SPermOf(s[2 * N + 2], N)
                  Q   == HouseBasis(v, u)
-                 c   == Weights(s[2 * N + 3], N)
+                 \* every other case has REPEATED eigenvalues (groups of equal weights)
+                 c   == IF Pick(s[2 * N + 5], 2) = 0 THEN Weights(s[2 * N + 3], N) ELSE RepWeights(s[2 * N + 3], N)
                  H   == XMul(XMul(Q, DiagMat(c)), XHerm(Q))
                  n   == 1 + Pick(s[2 * N + 4], N)
                  top == Prefix(IdxDesc(c, 1..N), n)
                  bot == Prefix(IdxAsc(c, 1..N), n)
-                 rest == Suffix(IdxDesc(c, 1..N), n)
-             IN [valid |-> TRUE, kind |-> "eig", id |-> id, H |-> H, n |-> n, Q |-> Q, c |-> c, nu |-> nu,
+                 tp  == c[top[n]]                                   \* the n-th largest eigenvalue (in units of nu^2)
+                 tl  == c[bot[n]]                                   \* the n-th smallest
+                 \* The n dominant eigenvectors span a subspace S with  lo <= S <= hi : lo = eigenspaces of the
+                 \* eigenvalues strictly above the n-th largest, hi = those at or above it.  lo = hi unless the cut
+                 \* falls inside a group of equal eigenvalues; then any n - dim(lo) dimensions of that group are right.
+                 domLo == IdxWhere(c, 1..N, "gt", tp)   domHi == IdxWhere(c, 1..N, "ge", tp)
+                 lstLo == IdxWhere(c, 1..N, "lt", tl)   lstHi == IdxWhere(c, 1..N, "le", tl)
+             IN [valid |-> TRUE, kind |-> "eig", id |-> id, sc |-> ScaleOf(id), H |-> H, n |-> n, Q |-> Q, c |-> c, nu |-> nu,
                  den |-> nu * nu, top |-> top, bot |-> bot, tooMany |-> N + 1,     \* peig(H, N + 1) must raise ValueError
                  peigD |-> [t \in 1..n |-> c[top[t]] * nu * nu],
                  leigD |-> [t \in 1..n |-> c[bot[t]] * nu * nu],
-                 domNum |-> ProjCols(Q, top), leastNum |-> ProjCols(Q, bot), restNum |-> ProjCols(Q, rest)]
+                 ties |-> \E i, j \in 1..N : i # j /\ c[i] = c[j],
+                 domLoIdx |-> domLo, domHiIdx |-> domHi, lstLoIdx |-> lstLo, lstHiIdx |-> lstHi, tp |-> tp, tl |-> tl,
+                 domLoNum |-> ProjCols(Q, domLo), domHiNum |-> ProjCols(Q, domHi),
+                 lstLoNum |-> ProjCols(Q, lstLo), lstHiNum |-> ProjCols(Q, lstHi),
+                 belowNum |-> ProjCols(Q, IdxWhere(c, 1..N, "lt", tp))]
 Eig == /\ Kind = "eig" /\ kase = None
        /\ \E id \in Lo..Hi : LET r == EigRec(id) IN r.valid /\ kase' = r
 IsEig == kase.kind = "eig"
@@ -538,21 +622,31 @@ EigSpectrum == IsEig => LET N == MRows(kase.H) IN
                   /\ kase.H = XHerm(kase.H)
                   /\ XMul(XHerm(kase.Q), kase.Q) = IDiag(N, kase.den)                       \* orthogonal columns
                   /\ XMul(kase.H, kase.Q) = XMul(kase.Q, DiagMat([k \in 1..N |-> kase.c[k] * kase.den]))  \* H q_k = lambda_k q_k
-                  /\ \A i, j \in 1..N : i # j => kase.c[i] # kase.c[j]                     \* no ties
-EigSelectors == IsEig =>
-                  /\ \A t \in 1..(kase.n - 1) : kase.peigD[t] > kase.peigD[t + 1] /\ kase.leigD[t] < kase.leigD[t + 1]
-                  /\ \A k \in 1..Len(kase.c) : k \notin SeqToSet(kase.top) => kase.c[k] * kase.den < kase.peigD[kase.n]
-                  /\ \A k \in 1..Len(kase.c) : k \notin SeqToSet(kase.bot) => kase.c[k] * kase.den > kase.leigD[kase.n]
-                  /\ XMul(kase.domNum, kase.domNum) = IScale(kase.den, kase.domNum)
-                  /\ XMul(kase.leastNum, kase.leastNum) = IScale(kase.den, kase.leastNum)
-                  /\ XAdd(kase.domNum, kase.restNum) = IDiag(MRows(kase.H), kase.den)   \* dominant n (+) least N-n = everything
-                  /\ MTrace(kase.domNum) = Gi(kase.n * kase.den)
-                  /\ XMul(kase.H, kase.domNum) = XMul(kase.domNum, kase.H)              \* invariant subspace
+                  /\ \A k \in 1..N : kase.c[k] > 0
+EigSelectors == IsEig => LET N == MRows(kase.H)  S(q) == SeqToSet(q) IN
+                  /\ \A t \in 1..(kase.n - 1) : kase.peigD[t] >= kase.peigD[t + 1] /\ kase.leigD[t] <= kase.leigD[t + 1]
+                  /\ \A k \in 1..N : k \notin S(kase.top) => kase.c[k] * kase.den <= kase.peigD[kase.n]
+                  /\ \A k \in 1..N : k \notin S(kase.bot) => kase.c[k] * kase.den >= kase.leigD[kase.n]
+                  \* the sandwich: lo inside hi, dim lo <= n <= dim hi, everything between them is ONE group of equal values
+                  /\ S(kase.domLoIdx) \subseteq S(kase.domHiIdx) /\ Len(kase.domLoIdx) <= kase.n /\ kase.n <= Len(kase.domHiIdx)
+                  /\ S(kase.lstLoIdx) \subseteq S(kase.lstHiIdx) /\ Len(kase.lstLoIdx) <= kase.n /\ kase.n <= Len(kase.lstHiIdx)
+                  /\ \A k \in S(kase.domHiIdx) \ S(kase.domLoIdx) : kase.c[k] = kase.tp
+                  /\ \A k \in S(kase.lstHiIdx) \ S(kase.lstLoIdx) : kase.c[k] = kase.tl
+                  /\ (~kase.ties => Len(kase.domHiIdx) = kase.n /\ Len(kase.lstHiIdx) = kase.n)     \* distinct spectrum: lo = hi
+                  /\ XMul(kase.domHiNum, kase.domHiNum) = IScale(kase.den, kase.domHiNum)
+                  /\ XMul(kase.lstHiNum, kase.lstHiNum) = IScale(kase.den, kase.lstHiNum)
+                  /\ XMul(kase.domHiNum, kase.domLoNum) = IScale(kase.den, kase.domLoNum)          \* lo is inside hi
+                  /\ XAdd(kase.domHiNum, kase.belowNum) = IDiag(N, kase.den)        \* eigenvalues >= t (+) eigenvalues < t = everything
+                  /\ MTrace(kase.domHiNum) = Gi(Len(kase.domHiIdx) * kase.den)
+                  /\ XMul(kase.H, kase.domHiNum) = XMul(kase.domHiNum, kase.H)      \* invariant subspaces
+                  /\ XMul(kase.H, kase.lstLoNum) = XMul(kase.lstLoNum, kase.H)
+\* homogeneity for k = 2: same eigenvectors, eigenvalues doubled
+EigScaleLaw == IsEig => XMul(IScale(2, kase.H), kase.Q) = XMul(kase.Q, DiagMat([k \in 1..MRows(kase.H) |-> 2 * kase.c[k] * kase.den]))
 
 \* The same projector through the generic formula A (A^H A)^-1 A^H (ties the two families together)
 EigProjectorIsProjection == IsEig /\ MRows(kase.H) <= 4 /\ kase.nu <= 4 =>        \* (bounds keep det(Q_sel^H Q_sel) = nu^(2n) small)
-                  LET p == ProjND(Cols(kase.Q, kase.top))
-                  IN  IScale(p.den, kase.domNum) = IScale(kase.den, p.num)
+                  LET p == ProjND(Cols(kase.Q, kase.domHiIdx))
+                  IN  IScale(p.den, kase.domHiNum) = IScale(kase.den, p.num)
 
 \* The call contract of the selectors on their documented domain (0 <= n <= cols, 1 <= k <= min(rows, cols),
 \* n <= N): outcome of the call.  Trace_Subspace validates recorded calls on random matrices against it.
@@ -574,28 +668,33 @@ SvdRec(id) ==
         ELSE LET rp(x, k) == [perm |-> PermFrom(x, 1..k), ph |-> TLCEval([i \in 1..k |-> IF real THEN 2 * Pick(LcgIter(x, i), 2) ELSE Pick(LcgIter(x, i), 4)])]
                  Qu == HouseBasis(vu, rp(s[o + 2], m))
                  Qw == HouseBasis(vw, rp(s[o + 3], nc))
-                 c0 == Weights(s[o + 4], r)
+                 \* every other case has REPEATED singular values
+                 c0 == IF Pick(s[o + 9], 2) = 0 THEN Weights(s[o + 4], r) ELSE RepWeights(s[o + 4], r)
                  lowest == IdxAsc(c0, 1..r)[1]
                  \* optionally a rank-deficient matrix: the smallest weight becomes 0
                  c  == IF r >= 2 /\ Pick(s[o + 5], 4) = 0 THEN [k \in 1..r |-> IF k = lowest THEN 0 ELSE c0[k]] ELSE c0
                  A  == XMul(XMul(Cols(Qu, [k \in 1..r |-> k]), DiagMat(c)), XHerm(Cols(Qw, [k \in 1..r |-> k])))
                  sg == [k \in 1..nc |-> IF k <= r THEN c[k] * nuU * nuW ELSE 0]       \* singular value of right vector k
-                 zeros == {k \in 1..nc : sg[k] = 0}
-                 pos   == IdxAsc(sg, (1..nc) \ zeros)                                  \* increasing
-                 z  == Cardinality(zeros)
+                 asc == IdxAsc(sg, 1..nc)                                              \* right vectors by increasing singular value
                  n  == Pick(s[o + 6], nc + 1)                                         \* 0..nc
-                 zs == PermFrom(1, zeros)
-                 lo == IF n < z THEN <<>> ELSE zs \o Prefix(pos, n - z)
-                 hi == IF n < z THEN zs ELSE lo
-                 remS == IF n < z THEN [t \in 1..(z - n) |-> 0] \o [t \in 1..Len(pos) |-> sg[pos[t]]]
-                         ELSE [t \in 1..(nc - n) |-> sg[pos[n - z + t]]]
+                 \* The n least right singular vectors span a subspace with lo <= span(V0) <= hi: lo = vectors with a
+                 \* singular value strictly below the n-th smallest one, hi = at or below it.  lo = hi unless the cut
+                 \* falls inside a group of equal singular values (the null space of a wide matrix is such a group).
+                 tau == IF n = 0 THEN -1 ELSE sg[asc[n]]
+                 lo == IdxWhere(sg, 1..nc, "lt", tau)
+                 hi == IdxWhere(sg, 1..nc, "le", tau)
+                 remS == [t \in 1..(nc - n) |-> sg[asc[n + t]]]
                  rk == Cardinality({k \in 1..r : c[k] # 0})
-                 kk == 1 + Pick(s[o + 7], rk)                                         \* 1..rank
-                 topk == Prefix(IdxDesc(c, 1..r), kk)
+                 desc == IdxDesc(c, 1..r)
+                 \* the best rank-k approximation is unique only when the k-th and (k+1)-th singular values differ
+                 cuts == {k \in 1..rk : k = r \/ c[desc[k]] > c[desc[k + 1]]}
+                 kk == NthSmallest(cuts, Pick(s[o + 7], Cardinality(cuts)))
+                 topk == Prefix(desc, kk)
                  Ak == XMul(XMul(Cols(Qu, topk), DiagMat([t \in 1..kk |-> c[topk[t]]])), XHerm(Cols(Qw, topk)))
                  lrsvAsIs == LrsvOutcome(m, nc, n)
                  pcmAsIs  == PcmOutcome(m, nc, kk)
-             IN [valid |-> TRUE, kind |-> "svd", id |-> id, A |-> A, n |-> n, k |-> kk, rows |-> m, cols |-> nc,
+             IN [valid |-> TRUE, kind |-> "svd", id |-> id, sc |-> ScaleOf(id), tau |-> tau,
+                 ties |-> \E i, j \in 1..r : i # j /\ c[i] = c[j], A |-> A, n |-> n, k |-> kk, rows |-> m, cols |-> nc,
                  Qu |-> Qu, Qw |-> Qw, c |-> c, nuU |-> nuU, nuW |-> nuW, sg |-> sg,
                  den |-> nuW * nuW, loNum |-> ProjCols(Qw, lo), hiNum |-> ProjCols(Qw, hi), loIdx |-> lo, hiIdx |-> hi,
                  remS |-> remS, pcm |-> Cols(Ak, [t \in 1..kk |-> t]), Ak |-> Ak, topk |-> topk,
@@ -611,7 +710,11 @@ SvdSpectrum == IsSvd => LET r == Min(kase.rows, kase.cols) IN
                   \* A w_k = c_k nuW^2 u_k (k <= r), A w_k = 0 (k > r): so ||A w_k|| / ||w_k|| = c_k nuU nuW = sg[k]
                   /\ XMul(kase.A, kase.Qw) = [i \in 1..kase.rows |-> [k \in 1..kase.cols |->
                           IF k <= r THEN GMul(Gi(kase.c[k] * kase.den), kase.Qu[i][k]) ELSE GZero]]
-                  /\ \A i, j \in 1..r : i # j => kase.c[i] # kase.c[j]
+                  /\ \A k \in 1..r : kase.c[k] >= 0
+\* homogeneity for k = 2: same singular vectors, singular values doubled
+SvdScaleLaw == IsSvd => LET r == Min(kase.rows, kase.cols) IN
+                  XMul(IScale(2, kase.A), kase.Qw) = Fix([i \in 1..kase.rows |-> [k \in 1..kase.cols |->
+                          IF k <= r THEN GMul(Gi(2 * kase.c[k] * kase.den), kase.Qu[i][k]) ELSE GZero]])
 SvdSelectors == IsSvd =>
                   /\ Len(kase.remS) = kase.cols - kase.n                                   \* S aligned with V1
                   /\ \A t \in 1..(Len(kase.remS) - 1) : kase.remS[t] <= kase.remS[t + 1]
@@ -619,7 +722,8 @@ SvdSelectors == IsSvd =>
                   /\ SeqToSet(kase.loIdx) \subseteq SeqToSet(kase.hiIdx)
                   /\ \A k \in 1..kase.cols : k \notin SeqToSet(kase.hiIdx) =>
                           \A j \in SeqToSet(kase.hiIdx) : kase.sg[j] <= kase.sg[k]
-                  /\ (kase.loIdx # kase.hiIdx => MIsZero(XMul(kase.A, kase.hiNum)))         \* free choice only inside the null space
+                  /\ \A j \in SeqToSet(kase.hiIdx) \ SeqToSet(kase.loIdx) : kase.sg[j] = kase.tau   \* free choice only inside ONE group of equal values
+                  /\ \A j \in SeqToSet(kase.loIdx) : kase.sg[j] < kase.tau
                   \* A_k agrees with A on its k dominant right singular vectors and kills the others
                   /\ \A j \in 1..kase.cols :
                         LET w == Cols(kase.Qw, <<j>>)
@@ -657,7 +761,7 @@ GmdKnown(id) ==
         Qw == HouseBasis(vw, SPermOf(s[o + 3], nc))
         c  == [k \in 1..p |-> 1 + Pick(s[o + 3 + k], 3)]
         js == [k \in 1..p |-> k]
-    IN  [valid |-> TRUE, kind |-> "gmd", id |-> id, p |-> p, gm2p |-> <<>>, diag2 |-> [k \in 1..p |-> 1],
+    IN  [valid |-> TRUE, kind |-> "gmd", id |-> id, sc |-> ScaleOf(id), p |-> p, gm2p |-> <<>>, diag2 |-> [k \in 1..p |-> 1],
          A |-> XMul(XMul(Cols(Qu, js), DiagMat(c)), XHerm(Cols(Qw, js))),
          sv |-> [k \in 1..p |-> c[k] * IntFrob(vu) * IntFrob(vw)],
          req |-> {"Reconstructs", "UnitaryQ", "UnitaryP", "UpperTriangularR", "ConstantDiagonalGeoMean", "InputsUntouched"}]
@@ -672,7 +776,7 @@ GmdRec(id) ==
         gm == IF m = nc THEN <<ProdInts(fr.diag2)>>
               ELSE IF p <= 3 THEN <<MDet(IF m > nc THEN XMul(XHerm(A), A) ELSE XMul(A, XHerm(A)))[1]>>
               ELSE <<>>
-    IN  [valid |-> TRUE, kind |-> "gmd", id |-> id, A |-> A, p |-> p, gm2p |-> gm, diag2 |-> fr.diag2, sv |-> <<>>,
+    IN  [valid |-> TRUE, kind |-> "gmd", id |-> id, sc |-> ScaleOf(id), A |-> A, p |-> p, gm2p |-> gm, diag2 |-> fr.diag2, sv |-> <<>>,
          req |-> {"Reconstructs", "UnitaryQ", "UnitaryP", "UpperTriangularR", "ConstantDiagonalGeoMean", "InputsUntouched"}]
 Gmd == /\ Kind = "gmd" /\ kase = None
        /\ \E id \in Lo..Hi : kase' = IF id % 3 = 2 THEN GmdKnown(id) ELSE GmdRec(id)
@@ -695,7 +799,7 @@ WhitenRec(id) ==
         \* eigenvalue 1 of C has multiplicity n - rank(A) = n - min(m, n): repeated iff n - m >= 2
         degenerate == n - m >= 2
         white == WhitenOutcome(m, n)
-    IN  [valid |-> TRUE, kind |-> "whiten", id |-> id, C |-> C, n |-> n, rowsA |-> m,
+    IN  [valid |-> TRUE, kind |-> "whiten", id |-> id, sc |-> ScaleOf(id), C |-> C, n |-> n, rowsA |-> m,
          detC |-> IF n <= 4 THEN <<MDet(C)[1]>> ELSE <<>>, degenerate |-> degenerate, white |-> white,
          req |-> {"WhCWIsIdentity", "DetWSquaredTimesDetCIsOne"}]
 Whiten == /\ Kind = "whiten" /\ kase = None
@@ -714,7 +818,7 @@ EigRelRec(id) ==
         real == Pick(s[Len(s)], 3) = 0
         A  == FullRank(s, 0, m, N, real).A
         H  == XAdd(XMul(XHerm(A), A), IDiag(N, 1))
-    IN  [valid |-> TRUE, kind |-> "eigrel", id |-> id, H |-> H, n |-> 1 + Pick(s[Len(s) - 1], N), tr |-> MTrace(H)[1],
+    IN  [valid |-> TRUE, kind |-> "eigrel", id |-> id, sc |-> ScaleOf(id), H |-> H, n |-> 1 + Pick(s[Len(s) - 1], N), tr |-> MTrace(H)[1],
          req |-> {"EigenEquation", "DominantValuesInOrder", "LeastValuesInOrder", "UnitColumns", "TraceWhenAll"}]
 EigRel == /\ Kind = "eigrel" /\ kase = None
           /\ \E id \in Lo..Hi : kase' = EigRelRec(id)
